@@ -163,7 +163,7 @@ ASSUMPTIONS = ['IEEE-754 binary32/64 as implemented by CBMC\'s float encoding; t
 CLAIM = dict(
  text='For index arrays (static_vector / std::array / std::vector in every pairing, lengths 0..4, all 64-bit values, stale capacity cells symbolic), scalars, hybrid / fixed / bounded-dim / dynamic ndarrays '
       '(same shape, same size with another shape, other sizes, other dims), optional (std and utl), variant and tuple operands the solver shows for BOTH call orders: isequal(a,b) == (same dim and shape and all elements equal), '
-      'isclose(a,b,eps) == (same shape and |a-b| < eps for all elements, NaN never close), Nothing==Nothing, Nothing!=value, either/tuple member-wise; no element outside an operand\'s logical extent influences the result or is read '
+      'isclose(a,b,eps) == (same shape and |a-b| < eps for all elements, NaN never close; |a-b| taken as larger minus smaller in the common type of operands and eps - pure IEEE lemma queries show that this is fabs(a-b), is symmetric, and for 32-bit integer operands equals the exact integer difference), Nothing==Nothing, Nothing!=value, either/tuple member-wise; no element outside an operand\'s logical extent influences the result or is read '
       'through a hooked accessor. In the NDEBUG build operands of different length/shape/dim return false (the repair holds). The asserts-on build is shown to agree wherever lengths/shapes match.',
  note='Pending findings (excluded regions): asserts-on build aborts on mismatching operands; isequal(int array, size_t array) truncates to int; isclose on unsigned/int/double operands (wrap, float rounding); '
       'isclose(either, value, eps) ignores eps. Bounds as stated per harness. Trusted: clang-14 -O1 lowering, engine/ll2c.py, CBMC float/bit-vector encoding (cadical for FP queries).')
